@@ -364,6 +364,10 @@ func execDoc(spec string) (res engine.Result) {
 	failDiffs(&res, "stage=parse form="+form, ms, ctx+": parsed bag differs from the document")
 	orig := copyTree(b1.Any)
 
+	// 1b. every other way the text can be parsed into a bag gives the same bag, and a bag delivered to a callback
+	// is still that document after the parser has gone on to the following documents of the same input
+	routes(&res, scope, form, ctx, b1.Any)
+
 	// 2. write with every option, parse again
 	var outcome []string
 	for _, wo := range writeOpts(true) {
@@ -510,5 +514,81 @@ func reparse(res *engine.Result, scope *slip.Scope, wo writeOpt, written string,
 	sort.Strings(ks)
 	for _, k := range ks {
 		res.Fail(prefix+" kind="+k+" got=parse-"+errKind(err), wctx+": written text does not parse: "+err.String())
+	}
+}
+
+// routes: the parse entry points besides make-bag. The multi-document inputs put the document between two copies
+// of a fixed other document and look at the kept bags only after the whole input was parsed.
+func routes(res *engine.Result, scope *slip.Scope, form, ctx string, want any) {
+	const other = `{zz:[1 {q:2}] n:{x:1}}`
+	scope.Let("otxt", slip.String(other))
+	wantDump := dump(want, false)
+	single := []struct{ name, src string }{
+		{"bag-parse", "(let ((x (make-instance 'bag-flavor))) (bag-parse x txt) x)"},
+		{":parse", "(let ((x (make-instance 'bag-flavor))) (send x :parse txt) x)"},
+		{"make-instance:parse", "(make-instance 'bag-flavor :parse txt)"},
+		{"bag-read", "(let ((x (make-instance 'bag-flavor))) (bag-read x (make-string-input-stream txt)) x)"},
+	}
+	for _, r := range single {
+		o, err := lisp.EvalIn(scope, r.src)
+		if err != nil {
+			res.Fail(fmt.Sprintf("stage=route via=%s form=%s kind=%s", r.name, form, errKind(err)), ctx+": "+r.src+" => "+err.String())
+			continue
+		}
+		b, ok := bagOf(o)
+		if !ok {
+			res.Fail(fmt.Sprintf("stage=route via=%s kind=not-a-bag", r.name), ctx+": "+r.src+" => "+lisp.Show(o))
+			continue
+		}
+		res.Hit("route:" + r.name)
+		if got := dump(b.Any, false); got != wantDump {
+			res.Fail(fmt.Sprintf("stage=route via=%s form=%s kind=differs-from-make-bag", r.name, form),
+				fmt.Sprintf("%s: %s gives %s, make-bag gives %s", ctx, r.src, trunc(got, 160), trunc(wantDump, 160)))
+		}
+	}
+	strict := ""
+	if form == "j" {
+		strict = " t"
+	}
+	multi := []struct{ name, src string }{
+		{"json-parse", "(let ((acc nil)) (json-parse (lambda (x) (setq acc (cons x acc))) (concatenate 'string otxt \" \" txt \" \" otxt)) (reverse acc))"},
+		{"json-parse-strict", "(let ((acc nil)) (json-parse (lambda (x) (setq acc (cons x acc))) txt" + strict + ") (reverse acc))"},
+	}
+	otherBag, oerr := lisp.EvalIn(scope, "(make-bag otxt)")
+	ob, _ := bagOf(otherBag)
+	if oerr != nil || ob == nil {
+		res.Fail("harness:route-other-document", other)
+		return
+	}
+	otherDump := dump(ob.Any, false)
+	for _, r := range multi {
+		o, err := lisp.EvalIn(scope, r.src)
+		if err != nil {
+			res.Fail(fmt.Sprintf("stage=route via=%s form=%s kind=%s", r.name, form, errKind(err)), ctx+": "+r.src+" => "+err.String())
+			continue
+		}
+		list, _ := o.(slip.List)
+		wantDumps := []string{otherDump, wantDump, otherDump}
+		if r.name == "json-parse-strict" {
+			wantDumps = []string{wantDump}
+		}
+		if len(list) != len(wantDumps) {
+			res.Fail(fmt.Sprintf("stage=route via=%s form=%s kind=document-count", r.name, form),
+				fmt.Sprintf("%s: %s delivered %d bags, %d documents", ctx, r.src, len(list), len(wantDumps)))
+			continue
+		}
+		res.Hit("route:" + r.name)
+		for i, x := range list {
+			b, ok := bagOf(x)
+			if !ok {
+				res.Fail(fmt.Sprintf("stage=route via=%s kind=not-a-bag", r.name), ctx+": "+lisp.Show(x))
+				break
+			}
+			if got := dump(b.Any, false); got != wantDumps[i] {
+				res.Fail(fmt.Sprintf("stage=route via=%s form=%s kind=kept-bag-differs document=%d-of-%d", r.name, form, i+1, len(list)),
+					fmt.Sprintf("%s: after the whole input was parsed the bag delivered for document %d is %s, that document is %s", ctx, i+1, trunc(got, 160), trunc(wantDumps[i], 160)))
+				break
+			}
+		}
 	}
 }
